@@ -3129,7 +3129,14 @@ impl PeerConnection {
             if state == PeerConnectionState::Connected {
                 return Ok(());
             }
-            if state == PeerConnectionState::Failed || state == PeerConnectionState::Closed {
+            // Disconnected together with a disconnect reason is final as well:
+            // the state loop has given the transport up (DTLS closed by the
+            // peer, ICE grace expired).
+            if state == PeerConnectionState::Failed
+                || state == PeerConnectionState::Closed
+                || (state == PeerConnectionState::Disconnected
+                    && self.disconnect_reason().is_some())
+            {
                 return Err(RtcError::Internal(format!(
                     "Peer connection failed or closed: {:?}",
                     state
